@@ -47,6 +47,8 @@ func init() {
 			c19GobCopy(c, ms)
 		case "copy-usenumber":
 			c19CopyUseNumber(c, k.Docs[0])
+		case "latin1-file":
+			c19Latin1File(c, k.Docs, k.Raw)
 		}
 		resetOptions()
 	}})
@@ -456,6 +458,57 @@ func c19GobCopy(c *Ctx, ms []map[string]interface{}) {
 	}
 }
 
+// c19Latin1File: a file whose documents declare an 8-bit encoding, read with XmlCharsetReader set to a Latin-1
+// reader that asks its source for whole buffers (as real charset packages do): the file readers return one Map
+// per document, each equal to the direct decode of that document - nothing of a later document is swallowed.
+func c19Latin1File(c *Ctx, docs []string, raw bool) {
+	cas := func() interface{} { return c19Case{Kind: "latin1-file", Docs: docs, Raw: raw} }
+	mxj.XmlCharsetReader = func(cs string, in io.Reader) (io.Reader, error) { return &latin1Reader{src: in}, nil }
+	defer func() { mxj.XmlCharsetReader = nil }()
+	var want []string
+	for _, d := range docs {
+		m, err := mxj.NewMapXml([]byte(d))
+		if err != nil {
+			c.Broken("C19: latin-1 document does not decode directly: %v", err)
+			return
+		}
+		want = append(want, dump(map[string]interface{}(m)))
+	}
+	for _, sep := range []string{"", "\n"} {
+		fn := c19Path("latin1.xml")
+		defer os.Remove(fn)
+		if err := os.WriteFile(fn, []byte(strings.Join(docs, sep)), 0600); err != nil {
+			c.Broken("C19: %v", err)
+			return
+		}
+		var got []string
+		var err error
+		api := "NewMapsFromXmlFile"
+		st, pan := protect(func() {
+			if raw {
+				api = "NewMapsFromXmlFileRaw"
+				var ms []mxj.MapRaw
+				ms, err = mxj.NewMapsFromXmlFileRaw(fn)
+				for _, m := range ms {
+					got = append(got, dump(map[string]interface{}(m.M)))
+				}
+			} else {
+				var ms mxj.Maps
+				ms, err = mxj.NewMapsFromXmlFile(fn)
+				for _, m := range ms {
+					got = append(got, dump(map[string]interface{}(m)))
+				}
+			}
+		})
+		c.S.Transitions++
+		c.S.Validated++
+		if pan || err != nil || !eqStrings(got, want) {
+			c.Violate(api, "read-back-equal", "charset-reader", cas, nil, fmt.Sprintf("file of %d ISO-8859-1 documents (separator %q) read with a Latin-1 XmlCharsetReader: got %d Maps %v err=%v, want %v %s", len(docs), sep, len(got), got, err, want, st))
+			return
+		}
+	}
+}
+
 // c19CopyUseNumber: a Map decoded under JsonUseNumber holds json.Number values; its Copy, made under the same
 // setting, is deeply equal to it (same type, same digits), and shares no container with it.
 func c19CopyUseNumber(c *Ctx, doc string) {
@@ -490,7 +543,7 @@ func c19CopyUseNumber(c *Ctx, doc string) {
 func c19Run(c *Ctx) {
 	mustBeDefault(c)
 	mxj.XMLEscapeChars(true)
-	c.S.Rule = "cases = (list of 1..3 Maps, writer, indent, reader, fault): XML Maps decoded from 6 documents (attributes, repeated siblings, mixed content, special characters), JSON Maps from 6 objects (strings with braces, quotes, backslashes incl. a trailing escaped backslash, nested lists/maps, non-null scalars), plus lists that hold large documents (0.6 to 9 KB) before and between small ones (intact and 4 truncation offsets); writers XmlFile, XmlFileIndent, JsonFile, JsonFileIndent (default and safe) with (prefix, indent) pairs {(\"\", 2 spaces), (\"\", tab), (space, space), (tab, U+3000)}; readers NewMapsFromXmlFile[Raw], NewMapsFromJsonFile[Raw]; faults: none, EVERY truncation offset, EVERY single-byte corruption offset x {X, <, {, }, comma, quote, 0xFF}, missing file, directory. Oracle: intact => same count and order, each Map equal to the decode of its own encoding (JSON: the original), Raw contains the document text; truncation => error together with exactly the Maps wholly before the cut (clean end at a boundary); corruption => the Maps wholly before the fault are returned and equal, and for XML count/error agree with a reference sequential reader built on encoding/xml; unreadable file => error. Gob: all Maps encoded first, then all decoded (deep-equal up to nil-vs-empty); Copy: deep-equal, receiver unchanged, no shared container identity - also for Maps decoded under JsonUseNumber (json.Number leaves keep type and digits, incl. integers beyond 2^53 and exponents beyond float64). non-trivial = faulted or intact read executed."
+	c.S.Rule = "cases = (list of 1..3 Maps, writer, indent, reader, fault): XML Maps decoded from 6 documents (attributes, repeated siblings, mixed content, special characters), JSON Maps from 6 objects (strings with braces, quotes, backslashes incl. a trailing escaped backslash, nested lists/maps, non-null scalars), plus lists that hold large documents (0.6 to 9 KB) before and between small ones (intact and 4 truncation offsets); writers XmlFile, XmlFileIndent, JsonFile, JsonFileIndent (default and safe) with (prefix, indent) pairs {(\"\", 2 spaces), (\"\", tab), (space, space), (tab, U+3000)}; readers NewMapsFromXmlFile[Raw], NewMapsFromJsonFile[Raw]; faults: none, EVERY truncation offset, EVERY single-byte corruption offset x {X, <, {, }, comma, quote, 0xFF}, missing file, directory. Oracle: intact => same count and order, each Map equal to the decode of its own encoding (JSON: the original), Raw contains the document text; truncation => error together with exactly the Maps wholly before the cut (clean end at a boundary); corruption => the Maps wholly before the fault are returned and equal, and for XML count/error agree with a reference sequential reader built on encoding/xml; unreadable file => error. Files of 1..3 documents of which some declare ISO-8859-1, read with a Latin-1 XmlCharsetReader that asks for whole buffers: one Map per document, equal to its direct decode. Gob: all Maps encoded first, then all decoded (deep-equal up to nil-vs-empty); Copy: deep-equal, receiver unchanged, no shared container identity - also for Maps decoded under JsonUseNumber (json.Number leaves keep type and digits, incl. integers beyond 2^53 and exponents beyond float64). non-trivial = faulted or intact read executed."
 	c.S.Assumptions = []string{"gob cannot distinguish nil from empty containers (encoding/gob)", "callers register map[string]interface{} and []interface{} with encoding/gob (its contract)"}
 	xmlDocs := []string{`<a/>`, `<a x="1">t</a>`, `<r><b>&lt;1&gt; &amp; "q"</b><a/></r>`, `<r><a>1</a><b/><a>2</a></r>`, `<r y="2">m<c>v</c></r>`, `<doc><k n="1">é</k></doc>`}
 	jsonDocs := []string{`{"a":1}`, `{"a":"}{\""}`, `{"a":"x\\"}`, `{"a":{"b":[1,{"c":"]"}]},"d":true}`, `{"k":"<&>","l":["s",2.5,false]}`, `{"e":"\\\"{"}`, `{"p":"C:\\dir\\ "}`, `{}`}
@@ -612,6 +665,21 @@ func c19Run(c *Ctx) {
 		c.S.Schedules++
 		c19GobCopy(c, ms)
 	})
+	// files of documents in a declared 8-bit encoding, read through a buffering XmlCharsetReader
+	l1 := []string{"<?xml version=\"1.0\" encoding=\"ISO-8859-1\"?><a>caf\xe9</a>", "<b k=\"v\">x</b>", "<?xml version=\"1.0\" encoding=\"ISO-8859-1\"?><c><d>\xe9t\xe9</d></c>", "<e/>"}
+	{
+		seqs(l1, 3, func(sq []string) {
+			for _, raw := range []bool{false, true} {
+				if !c.Mine() {
+					continue
+				}
+				c.S.States++
+				c.S.Evaluations++
+				c.S.Schedules++
+				c19Latin1File(c, append([]string{}, sq...), raw)
+			}
+		})
+	}
 	// Copy of Maps decoded under JsonUseNumber (json.Number leaves: digits and type are kept)
 	for _, d := range append(append([]string{}, gm...), `{"n":1.10,"big":12345678901234567890,"l":[1,2.50,{"e":1e400}],"s":"1.10"}`, `{"a":{"k":0.1000},"b":[-0,9007199254740993]}`) {
 		if !c.Mine() {
